@@ -22,7 +22,7 @@ RULE = (
     ' Also: maxlevels that are not whole numbers (literal reading).'
 )
 ASSUMPTIONS = [
-    "'lines' of a value are separated by '\\n' only and values have no trailing newline (the statement does not say which line-break characters count; str.splitlines and split('\\n') differ only there) - such values are not generated",
+    "values have no trailing newline; the statement does not say which characters end a line, so for values containing other line boundaries (\\r, \\x0b, \\x0c, \\x1c-\\x1e, \\x85, \\u2028, \\u2029) the whole text must follow ONE reading - '\\n' only, or every str.splitlines boundary - for all values of the rendering",
     "custom styles have three strings of equal width with cont != end and vertical != blank, so that the drawing is decodable",
 ]
 
@@ -152,10 +152,16 @@ def rendered_shape(start, childiter, maxlevel):
     return walk(start, 0)
 
 
-def text_lines(value):
-    """Lines of a value as the statement describes them (our generator never produces other line separators)."""
+OTHER_BREAKS = ["\r", "\x0b", "\x0c", "\x1c", "\x1d", "\x1e", "\x85", "\u2028", "\u2029", "\r\n"]
+
+
+def text_lines(value, universal=False):
+    """Lines of a value. The statement does not say which characters end a line: '\\n' only (universal=False), or every
+    line boundary str.splitlines knows (universal=True). A rendering must follow ONE of the two for all its values."""
     if isinstance(value, (list, tuple)):
         return [("%s" % (v,)) for v in value] or [""]
+    if universal:
+        return str(value).splitlines() or [""]
     return str(value).split("\n")
 
 
@@ -287,29 +293,33 @@ def _rows_once(case, acc, tree, labels, cls):
             node.text = val if cls is None or isinstance(val, str) else str(val)
             if cls is None:
                 node.label = val
-        lines = []
-        for e in exp:
-            node = e[2]
-            if sel == "repr":
-                val = repr(node)
-            elif id(node) in realvals:
-                val = realvals[id(node)]
-            else:
-                val = ""
-            tl = text_lines(val)
-            if len(tl) > 1 and e[3] >= 1:
-                multiline_deep = True
-            lines.append(e[0] + tl[0])
-            lines.extend(e[1] + t for t in tl[1:])
-        expected_text = "\n".join(lines)
+        texts = []
+        for universal in (False, True):
+            lines = []
+            for e in exp:
+                node = e[2]
+                if sel == "repr":
+                    val = repr(node)
+                elif id(node) in realvals:
+                    val = realvals[id(node)]
+                else:
+                    val = ""
+                tl = text_lines(val, universal)
+                if len(tl) > 1 and e[3] >= 1:
+                    multiline_deep = True
+                lines.append(e[0] + tl[0])
+                lines.extend(e[1] + t for t in tl[1:])
+            texts.append("\n".join(lines))
+        expected_text = texts[0]
         if sel == "repr":
             got_text = str(rt)
         elif sel == "callable":
             got_text = rt.by_attr(lambda n: realvals.get(id(n), ""))
         else:
             got_text = rt.by_attr("label" if cls is None else "text")
-        if got_text != expected_text:
-            raise Violation("text-" + sel, "expected %r got %r" % (expected_text, got_text))
+        if got_text != expected_text and got_text != texts[1]:
+            raise Violation("text-" + sel, "expected %r%s got %r" % (expected_text, "" if texts[1] == expected_text else " (or, with every str.splitlines boundary ending a line, %r)" % texts[1], got_text))
+        acc.tag("values_with_other_line_boundaries", texts[0] != texts[1])
     else:
         # default by_attr() prints the names
         expected_text = "\n".join(e[0] + str(e[2].name) for e in exp)
@@ -387,7 +397,7 @@ def _repr_once(case, acc, tree, klass, sep):
 
 # ---------------------------------------------------------------------------
 SAFE_CHARS = "abcXYZ019 .-_/|\\'\"+*?[]()é漢\t"
-LINE = st.text(alphabet=SAFE_CHARS, max_size=6)
+LINE = st.one_of(st.text(alphabet=SAFE_CHARS, max_size=6), st.text(alphabet=SAFE_CHARS, max_size=6), st.text(alphabet=SAFE_CHARS + "\r\x0c\x85\u2028", max_size=6))
 
 
 @st.composite
@@ -484,6 +494,20 @@ def _enum_cases(max_nodes, index, count):
                         yield {"kind": "rows", "shape": forest.to_list(shape), "start": start, "style": style, "childiter": childiter, "maxlevel": maxlevel, "cls": ("Node", "EqNode", "LenNode", "Node", "FalsyNode")[k % 5]}
 
 
+def _linebreak_cases():
+    """Values with line boundaries other than '\\n', alone and next to '\\n', on nodes at depth 0, 1 and 2."""
+    k = 0
+    for brk in OTHER_BREAKS:
+        for shape in ([[[]], []], [[], [[]]], [[[]]]):
+            size = shapes.shape_size(forest.to_tuple(shape))
+            for selector in ("attr", "callable"):
+                for pattern in (0, 1, 2):
+                    k += 1
+                    vals = [["r1" + brk + "r2"], ["a1" + brk + "a2", "a3"], ["plain", "multi"], ["x"]]
+                    values = [{"t": "str", "v": vals[(i + pattern) % 4]} for i in range(size)]
+                    yield {"kind": "rows", "shape": shape, "start": 0, "style": ["cont", "ascii", "round", "double"][k % 4], "childiter": "list", "maxlevel": None, "cls": "Node", "values": values, "selector": selector}
+
+
 def _wide_cases(widths):
     """A node with several hundred children, two of which have children of their own."""
     for width in widths:
@@ -503,6 +527,7 @@ def plan(tier, seed):
     tasks = [{"engine": "enum", "max_nodes": max_nodes, "index": i, "count": nshards * 2} for i in range(nshards * 2)]
     tasks += [{"engine": "hyp", "examples": examples, "seed": seed * 1000 + i} for i in range(nshards)]
     tasks += [{"engine": "wide", "widths": [w]} for w in ((300, 520) if tier == "quick" else (257, 258, 300, 520, 1500))]
+    tasks += [{"engine": "linebreaks"}]
     return tasks
 
 
@@ -514,7 +539,9 @@ def run_task(task, acc):
                 acc.add_violation(case, exc)
                 break
         return
-    if task["engine"] == "enum":
+    if task["engine"] == "linebreaks":
+        acc.run_enum(check_case, _linebreak_cases())
+    elif task["engine"] == "enum":
         acc.run_enum(check_case, _enum_cases(task["max_nodes"], task["index"], task["count"]))
     else:
         acc.run_hypothesis(check_case, random_cases(), task["examples"], task["seed"])
